@@ -223,7 +223,7 @@ def inject(c):
         return rebuild(items), {"kind": "reserved", "ident": name, "slot": "array-declaration" if r[2] % 2 else "scalar-declaration", "first": at == 0}
     if fault == "mode":
         pre = []
-        how = r[0] % 6
+        how = r[0] % 9
         if how == 0:
             m = S.F1(A.Num("float", "1.5"))
         elif how == 1:
@@ -235,9 +235,20 @@ def inject(c):
             m = S.F1(A.Var("sm9"))
         elif how == 4:
             m = S.F1(A.Num("float", "2.0"))
-        else:
+        elif how == 5:
             pre = [A.ScalarDecl("float", "fm9", S.F1(A.Num("int", "1")))]
             m = S.F1(A.Var("fm9"))
+        elif how == 6:
+            pre = [A.ArrayDecl("float", "am9", None, [[S.F1(A.Num("float", "0.5")), S.F1(A.Num("float", "1.0"))]])]
+            m = S.F1(A.Var("am9"))                          # a whole (float) array in the mode slot
+        elif how == 7:
+            pre = [A.ArrayDecl("int", "am9", None, [[S.F1(A.Num("int", "1")), S.F1(A.Num("int", "2"))]])]
+            m = S.F1(A.Var("am9"))                          # a whole int array is not an integer either
+        else:
+            # (a bool variable in the mode slot is NOT asserted: Python booleans are integers and the property lists
+            #  float, complex and string modes)
+            pre = [A.ArrayDecl("complex", "am9", None, [[S.F1(A.Num("complex", "1j"))]])]
+            m = S.F1(A.Var("am9"))
         lbr, rbr = [("", ""), ("[", "]"), ("(", ")")][r[1] % 3]
         modes = [zero, m] if r[2] % 2 else [m]
         st_ = A.Stmt("Fault", None if r[3] % 2 else A.Args([zero], [], False), modes, lbr, rbr)
@@ -282,10 +293,14 @@ def inject(c):
     if fault == "looptype":
         vt = ["int", "float", "bool", "str"][r[0] % 4]
         good = {"int": S.F1(A.Num("int", "1")), "float": S.F1(A.Num("float", "0.5")), "bool": A.Bool(True), "str": A.Str("a")}[vt]
-        wrong = {"int": [S.F1(A.Num("float", "1.5")), A.Str("a"), S.F1(A.Num("complex", "1j"))],
-                 "float": [A.Str("x"), S.F1(A.Num("complex", "2j")), A.Str("1.5")],
-                 "bool": [S.F1(A.Num("int", "2")), S.F1(A.Num("float", "0.5")), A.Str("True")],
-                 "str": [S.F1(A.Num("int", "1")), S.F1(A.Num("float", "2.5")), A.Bool(True)]}[vt][r[1] % 3]
+        if r[5] % 5 == 0 and vt in ("str", "bool"):
+            # a range over a non-numeric loop type: 0, 1, 2 are not strings, 2 is not a boolean
+            items.insert(at, A.For(vt, "lv9", A.Range("0", str(3 + r[2] % 3)), [A.Stmt("Body", A.Args([S.F1(A.Var("lv9"))], [], False), [zero])]))
+            return rebuild(items), {"kind": "looptype", "slot": "loop-range", "first": at == 0}
+        wrong = {"int": [S.F1(A.Num("float", "1.5")), A.Str("a"), S.F1(A.Num("complex", "1j")), S.F1(A.Num("float", "2.00001")), S.F1(A.Num("float", "1e-9"))],
+                 "float": [A.Str("x"), S.F1(A.Num("complex", "2j")), A.Str("1.5"), A.Str("inf"), S.F1(A.Num("complex", "1+1e-12j"))],
+                 "bool": [S.F1(A.Num("int", "2")), S.F1(A.Num("float", "0.5")), A.Str("True"), S.F1(A.Num("float", "1e-9")), S.F1(A.Num("float", "0.99999999999"))],
+                 "str": [S.F1(A.Num("int", "1")), S.F1(A.Num("float", "2.5")), A.Bool(True), A.Bool(False), S.F1(A.Num("int", "0"))]}[vt][r[1] % 5]
         vals = [good, good]
         vals.insert(r[2] % 3, wrong)
         lbr, rbr = [("", ""), ("[", "]"), ("(", ")")][r[3] % 3]
